@@ -26,15 +26,13 @@ theorem life_events {s0 s1 : State} {pre post : List Req} {l : Req} (p : PreLife
     intro sN h1 h2 h3 h4 h5 h6 h7
     have hcoreN : Core (markDone sN l) := by
       apply p.core.congr (by simp [h1]) (by simp [h2]) (by simp [h3]) (by simp [h5])
-      intro o ho hm
-      obtain ⟨_, _, _, r, hr, g1, g2, g3⟩ := p.core.live o ho hm
-      rw [markDone_done_mem, h4]
-      rintro (hd | ⟨e, _⟩)
-      · exact g3 (g1 ▸ hd)
-      · have : r = l := req_id_inj p.core.ids hr (by rw [p.ex1]; exact p.lmem) (by rw [g1, e])
+      intro r hr hu hd
+      rw [markDone_done_mem, h4] at hd
+      rcases hd with hd | ⟨e, _⟩
+      · exact hd
+      · have : r = l := req_id_inj p.core.ids hr (by rw [p.ex1]; exact p.lmem) e
         subst this
-        have := p.lu
-        simp [Req.isUod, g2] at this
+        rw [p.lu] at hu; cases hu
     have htrN : TrackEx (markDone sN l) := by
       intro ht r hr hu
       simp only [markDone_tracking, markDone_executing, markDone_track] at ht hr ⊢
@@ -56,9 +54,7 @@ theorem life_events {s0 s1 : State} {pre post : List Req} {l : Req} (p : PreLife
       ∃ evs, (loop post { cancelAll n sA.executing sA with resident := some ⟨n, 1⟩ }).1.events = s1.events ++ evs ∧
         ExclP s0.cfg evs ∧ (∀ q ∈ execsOf evs, ∀ n ∈ ns, conflict s0.cfg q.2 n = false) := by
     intro n sA hn hn' hobjs hev hex hdone hcfg htr htk
-    have hcoreA : Core sA := p.core.congr hobjs hev hex hcfg (fun o ho hm => by
-      obtain ⟨_, _, _, r, _, h1, _, h3⟩ := p.core.live o ho hm
-      rw [hdone, ← h1]; exact h3)
+    have hcoreA : Core sA := p.core.congr hobjs hev hex hcfg (fun _ _ _ hd => by rw [hdone] at hd; exact hd)
     have htrA : TrackEx sA := by
       intro ht r hr hu
       rw [htr]; exact p.trackEx1 (by rw [← htk]; exact ht) r (by rw [← hex]; exact hr) hu
